@@ -81,6 +81,12 @@ func (u *unaryNegation) Next(ctx context.Context) ([]model.StepVector, error) {
 	if in == nil {
 		return nil, nil
 	}
+	// The workers are started when the series are loaded; a consumer may
+	// ask for samples without having asked for the series first.
+	u.once.Do(func() { err = u.loadSeries(ctx) })
+	if err != nil {
+		return nil, err
+	}
 	for i, vector := range in {
 		if err := u.workers[i].Send(0, vector); err != nil {
 			return nil, err
